@@ -56,6 +56,7 @@ THEOREMS = [
     "Optyx.Props.OperatorsTie.operators_spec",
     "Optyx.Props.OperatorsTie.comparisons_spec",
     "Optyx.Props.OperatorsTie.ensureExpr_text",
+    "Optyx.Props.ConstraintTie.getVariables_text",
     "Optyx.Props.PinsC10.anchors",
 ]
 ASSUMPTIONS = [
